@@ -83,7 +83,7 @@ AResolveTemp(q) ==
          THEN md' = [md EXCEPT ![h[3]] = Drop(@, h[1]) \o RemoveFirstItem(Keep(@, h[1]), h[4])]
          ELSE UNCHANGED md
 ANext == \/ \E r \in Regions : \/ \E wp \in BOOLEAN : ASeedReq(r, wp)
-                               \/ \E i \in 1..7 : ASeedResp(r, i)
+                               \/ \E i \in 1..8 : ASeedResp(r, i)
                                \/ \E u \in TempUrls(r) : ARegisterTemp(r, u)
                                \/ ARegisterProxy(r)
          \/ \E q \in TempReqs : AResolveTemp(q)
